@@ -28,7 +28,9 @@ def replay_bands(arg):
     feats = ['bands']
     if len(set(v)) < len(v):
         feats.append('ties')
-    if any(b['boundary'] for b in rec['bands']):
+    if rec.get('large'):
+        feats.append('large_sample')
+    elif any(b['boundary'] for b in rec['bands']):
         feats.append('boundary')
     for f in feats:
         cnt['feat_' + f] = 1
